@@ -40,6 +40,7 @@ class Check(PropertyCheck):
                 if pos:
                     cs[self.rng.choice(pos)] = "\t"
             out.append("".join(cs))
+        out += [gen.zoo(self.rng, legend=False, quotes=False) for _ in range(max(5, n // 3))]   # quoted texts are outside the canvas computation (known finding of C12)
         return [t for t in out if "# Legend:" not in t]
 
     def offsets(self):
